@@ -19,10 +19,16 @@ pub fn generate_optimization_report(
 
     let mut total_optimizations_found = 0;
 
+    //Render the sections in a fixed order so that the report does not depend on hash iteration order
+    let mut optimizations: Vec<_> = optimizations.into_iter().collect();
+    optimizations.sort_by_key(|(target, _)| format!("{:?}", target));
+
     for optimization in optimizations {
         if optimization.1.len() > 0 {
             let optimization_target = optimization.0;
-            let matches = optimization.1;
+            //List the files in a fixed order, independent of the order in which they were discovered
+            let mut matches = optimization.1;
+            matches.sort();
 
             let report_section = get_optimization_report_section(optimization_target);
 
